@@ -2,6 +2,7 @@ CONSTANTS
   Bits = 0
   RowIncl = TRUE
   RootClip = TRUE
+  WideFix = TRUE
   Sizes = {0, 1, 2, 3, 255, 256, 257, 300}
   Coords = {0, 1, 2, 3, 254, 255, 256, 257, 299, 300, 301, 65535}
   Rows = 2
@@ -13,5 +14,5 @@ CONSTANTS
   ZS <- ZSq
   GXS <- GXSq
 SPECIFICATION Spec
-INVARIANTS IndexInBuffer IndexInjective OutsideIgnored EffectSmall AddrConforms PaintConforms
+INVARIANTS IndexInBuffer IndexInjective OutsideIgnored EffectSmall AddrConforms PaintConforms WideJudged
 CHECK_DEADLOCK FALSE
